@@ -32,6 +32,7 @@ PROPS = {
         "level": "exploration",
         "units": [
             U("c01", "TestMembership", T(20, 16, 300), T(25, 96, 600)),
+            U("c01", "TestRocksMembership", T(4, 12, 300, shrinktime="40s"), T(6, 64, 900, shrinktime="120s"), needs=["nodeexec"]),
         ],
     },
     "C02": {
@@ -53,6 +54,7 @@ PROPS = {
         "units": [
             U("c04", "TestBalloonVsRef", T(40, 16, 300), T(40, 64, 900)),
             U("c04", "TestTreesVsRef", T(60, 16, 300), T(60, 96, 900)),
+            U("c04", "TestRocksBalloonVsRef", T(5, 12, 300, shrinktime="40s"), T(8, 64, 900, shrinktime="120s"), needs=["nodeexec"]),
         ],
     },
     "C05": {
